@@ -129,15 +129,16 @@ Proof. reflexivity. Qed.
 
 Lemma map_chain e l : forallb (valid e) l = true -> (forall v, valid e v = true -> rt e v) ->
   exists js ws vs, map_res (dt_export C e) l = Ok js /\ map_res (dt_import E e) js = Ok ws /\
-    map_res (fun x => dt_validate e x PNone) ws = Ok vs /\ Forall2 py_eq l vs /\ length ws = length l.
+    map_res (fun x => dt_validate e x PNone) ws = Ok vs /\ Forall2 py_eq l vs /\ length ws = length l /\
+    length js = length l.
 Proof.
   intros Hv IH. induction l as [|x l IHl].
   - exists [], [], []. repeat split; constructor.
   - cbn in Hv. apply andb_prop in Hv. destruct Hv as [Hx Hl].
     destruct (IH x Hx) as (j & w & v' & H1 & H2 & H3 & H4 & H5).
-    destruct (IHl Hl) as (js & ws & vs & G1 & G2 & G3 & G4 & G5).
+    destruct (IHl Hl) as (js & ws & vs & G1 & G2 & G3 & G4 & G5 & G6).
     exists (j :: js), (w :: ws), (v' :: vs). rewrite !map_res_cons, H1, H2, H3, G1, G2, G3. cbn.
-    repeat split; [constructor; assumption|congruence].
+    repeat split; [constructor; assumption|congruence|congruence].
 Qed.
 
 Lemma mapd_chain es : Forall (fun d => forall v, valid d v = true -> rt d v) es ->
@@ -279,8 +280,30 @@ Lemma array_check_len a b l :
   (a <=? Z.of_nat (length l))%Z = true -> (Z.of_nat (length l) <=? b)%Z = true -> array_check a b (PTuple l) = Ok tt.
 Proof. intros H1 H2. unfold array_check. cbn. rewrite !Z.ltb_antisym, H1, H2. reflexivity. Qed.
 
+Lemma array_check_len_list a b l :
+  (a <=? Z.of_nat (length l))%Z = true -> (Z.of_nat (length l) <=? b)%Z = true -> array_check a b (PList l) = Ok tt.
+Proof. intros H1 H2. unfold array_check. cbn. rewrite !Z.ltb_antisym, H1, H2. reflexivity. Qed.
+
 Lemma tuple_check_len n l : length l = n -> tuple_check n (PTuple l) = Ok tt.
 Proof. intros H. unfold tuple_check. cbn. rewrite H, Z.eqb_refl. reflexivity. Qed.
+Lemma tuple_check_len_list n l : length l = n -> tuple_check n (PList l) = Ok tt.
+Proof. intros H. unfold tuple_check. cbn. rewrite H, Z.eqb_refl. reflexivity. Qed.
+
+Lemma missing_nil (flag : bool) o (present names : list str) :
+  forallb (fun n => mem_str n present || (flag && mem_str n o)) names = true ->
+  (if flag then filter (fun n => negb (mem_str n o)) (filter (fun n => negb (mem_str n present)) names)
+   else filter (fun n => negb (mem_str n present)) names) = [].
+Proof.
+  induction names as [|n names IH]; intros H2; [destruct flag; reflexivity|].
+  cbn in H2. apply andb_prop in H2. destruct H2 as [Hn H2]. specialize (IH H2).
+  cbn. destruct (mem_str n present); cbn; [exact IH|].
+  cbn in Hn. destruct flag; cbn in *; [|discriminate]. rewrite Hn. cbn. exact IH.
+Qed.
+
+Lemma check_missing_valid (ms : list (str * dtype)) o (kv : list (str * pyval)) :
+  forallb (fun n => mem_str n (map fst kv) || (true && mem_str n o)) (map fst ms) = true ->
+  check_missing (map fst ms) o true kv = Ok tt.
+Proof. intros H. unfold check_missing. rewrite (missing_nil true o _ _ H). reflexivity. Qed.
 
 Lemma all2_length {Q} es l : all2 Q es l = true -> length l = length es.
 Proof.
@@ -294,20 +317,11 @@ Lemma struct_check_valid (ms : list (str * dtype)) o c allow (kv : list (str * p
   forallb (fun n => mem_str n (map fst kv) || ((c || allow) && mem_str n o)) (map fst ms) = true ->
   struct_check (map fst ms) o c allow (PDict kv) = Ok tt.
 Proof.
-  intros H1 H2. unfold struct_check. cbn [py_dict].
+  intros H1 H2. unfold struct_check.
   assert (Hs : existsb (fun p => negb (mem_str (fst p) (map fst ms))) kv = false).
   { clear H2. induction kv as [|p kv IH]; cbn; [reflexivity|]. cbn in H1. apply andb_prop in H1. destruct H1 as [Hp H1].
     rewrite Hp. cbn. apply IH, H1. }
-  rewrite Hs.
-  assert (Hm : (if c || allow
-                then filter (fun n => negb (mem_str n o)) (filter (fun n => negb (mem_str n (map fst kv))) (map fst ms))
-                else filter (fun n => negb (mem_str n (map fst kv))) (map fst ms)) = []).
-  { clear H1 Hs. revert H2. generalize (map fst ms) as names.
-    induction names as [|n names IH]; intros H2; [destruct (c || allow); reflexivity|].
-    cbn in H2. apply andb_prop in H2. destruct H2 as [Hn H2]. specialize (IH H2).
-    cbn. destruct (mem_str n (map fst kv)); cbn; [exact IH|].
-    cbn in Hn. destruct (c || allow); cbn in *; [|discriminate]. rewrite Hn. cbn. exact IH. }
-  rewrite Hm. reflexivity.
+  rewrite Hs, (missing_nil (c || allow) o _ _ H2). reflexivity.
 Qed.
 
 Lemma forallb_imp {A} (f g : A -> bool) l :
@@ -339,9 +353,10 @@ Proof.
   - (* array *)
     destruct v; try discriminate. cbn [valid] in Hv. apply andb_prop in Hv. destruct Hv as [Hv Hl].
     apply andb_prop in Hv. destruct Hv as [H1 H2].
-    destruct (map_chain e l Hl (IHe HL)) as (js & ws & vs & G1 & G2 & G3 & G4 & G5).
+    destruct (map_chain e l Hl (IHe HL)) as (js & ws & vs & G1 & G2 & G3 & G4 & G5 & G6).
     exists (PList js), (PTuple ws), (PTuple vs). cbn [dt_export dt_import dt_validate].
-    rewrite (array_check_len _ _ _ H1 H2). cbn [bind py_iter]. rewrite G1. cbn [bind py_iter]. rewrite G2.
+    rewrite (array_check_len _ _ _ H1 H2). cbn [bind py_iter]. rewrite G1. cbn [bind py_iter].
+    rewrite array_check_len_list by (rewrite G6; assumption). cbn [bind py_iter]. rewrite G2.
     cbn [bind py_iter py_truthy]. rewrite array_check_len by (rewrite G5; assumption). cbn [bind py_iter]. rewrite G3. cbn.
     repeat split; [constructor; exact G4|discriminate].
   - (* tuple *)
@@ -354,7 +369,8 @@ Proof.
     destruct (mapd_chain es HF l Hv) as (js & ws & vs & G1 & G2 & G3 & G4 & G5 & G6).
     pose proof (all2_length _ _ Hv) as Hlen.
     exists (PList js), (PTuple ws), (PTuple vs). cbn [dt_export dt_import dt_validate].
-    rewrite (tuple_check_len _ _ Hlen). cbn [bind py_iter]. rewrite G1. cbn [bind py_iter]. rewrite G2.
+    rewrite (tuple_check_len _ _ Hlen). cbn [bind py_iter]. rewrite G1. cbn [bind py_iter].
+    rewrite tuple_check_len_list by congruence. cbn [bind py_iter]. rewrite G2.
     cbn [bind py_iter]. rewrite tuple_check_len by congruence. cbn [bind py_iter]. rewrite G3. cbn.
     repeat split; [constructor; exact G4|discriminate].
   - (* struct *)
@@ -385,8 +401,15 @@ Proof.
     rewrite (struct_check_valid ms o c true js) by (auto using Hdecl, Hreq).
     cbn [bind is_dict negb dict_items]. rewrite G2. cbn [bind py_truthy].
     rewrite (struct_check_valid ms o c true ws) by (auto using Hdecl, Hreq).
-    cbn [bind is_dict negb dict_items]. rewrite G3. cbn.
-    repeat split; [constructor; exact G4|discriminate].
+    cbn [bind is_dict negb dict_items]. rewrite G3. cbn [bind wrap_elem].
+    assert (Kvs : map fst vs = map fst kv).
+    { clear - G4. induction G4 as [|p q kv0 vs0 [Hpq _] _ IH]; cbn; [reflexivity|f_equal; [symmetry; exact Hpq|exact IH]]. }
+    assert (Hm : forallb (fun n => mem_str n (map fst vs) || (true && mem_str n o)) (map fst ms) = true).
+    { rewrite Kvs. revert H3. apply forallb_imp. intros n Hn. apply orb_prop in Hn.
+      destruct Hn as [Hn|Hn]; [rewrite Hn; reflexivity|]. apply andb_prop in Hn. destruct Hn as [_ Hn].
+      rewrite Hn. cbn. apply orb_true_r. }
+    rewrite (check_missing_valid ms o vs Hm).
+    cbn. repeat split; [constructor; exact G4|discriminate].
 Qed.
 
 End RT.
@@ -397,7 +420,7 @@ Lemma one_tuple_text_refused C d1 t w :
   lit_eval C t = Some w -> py_len w = None -> from_string C (TTuple [d1]) (PP [t]) = Err EWrongType.
 Proof.
   intros H1 H2. unfold from_string, generic_from_string. cbn [lit_eval]. rewrite H1.
-  cbn [dt_call length]. unfold tuple_check. rewrite H2. reflexivity.
+  cbn [dt_call length]. unfold tuple_check. rewrite H2. destruct (is_str_bytes_dict w); reflexivity.
 Qed.
 
 (* setParameterFromString hands over the internal value: an enum member or a bytes object never reaches the node *)
